@@ -92,7 +92,11 @@ def gen_index(i: int, seed: int, tier: str) -> dict[str, Any]:
                                                    "prelude": rng.choice(["a", "b", "T"]) if rng.random() < 0.25 else None,
                                                    # the devices' answers reach xknx in the same receive callback as the
                                                    # L_Data.con of the frame they answer (frames coalesced in one TCP read)
-                                                   "glue": rng.choice([None, None, None, "t_connect", "all"])},
+                                                   "glue": rng.choice([None, None, None, "t_connect", "all"]),
+                                                   # another task of the application holds a management connection to one
+                                                   # of the other bus addresses for the whole run (that device still answers
+                                                   # broadcasts - its answers belong to the procedure, not to the connection)
+                                                   "held": rng.choice(["a", "b"]) if rng.random() < 0.2 else None},
             "devices": devs, "ops": []}
 
 
@@ -148,6 +152,14 @@ def run(plan: dict[str, Any]) -> dict[str, Any]:
                 pass
             R.extra_faults["earlier_procedure_on_same_xknx"] += 1
             await asyncio.sleep(1.0)
+        if cfg.get("held"):
+            try:
+                async with asyncio.timeout(60):
+                    await xknx.management.connect(IndividualAddress(ADDRS[cfg["held"]]))
+                R.extra_faults["connection_to_another_device_held_meanwhile"] += 1
+            except (ManagementConnectionError, TimeoutError):
+                pass
+            await asyncio.sleep(0.5)
         try:
             async with asyncio.timeout(120):
                 if proc == "addr_write":
